@@ -778,7 +778,7 @@ static void op_parse(const char* hex) {
     int code = (int)s;
     if (s == CARQUET_OK) {
         carquet_schema_t* sc = build_schema(&arena, &md, &e);
-        if (!sc) code = (int)CARQUET_ERROR_INVALID_SCHEMA;
+        if (!sc) code = e.code != CARQUET_OK ? (int)e.code : (int)CARQUET_ERROR_INVALID_SCHEMA;   /* what open reports in its error struct */
     }
     printf("OK %d\n", code);
     carquet_arena_destroy(&arena);
@@ -1032,6 +1032,14 @@ static void probe_child(void* vctx, FILE* out) {
     free(keep); free(data);
 }
 
+/* CPU budget of a reader case, proportional to the input: 2 s + 1 s per 256 KiB (ASan build; the call
+ * scripts are bounded walks).  A 1 KiB file that needs more than 2 CPU seconds is a violation (hang-cpu). */
+static int cpu_budget(const char* path) {
+    struct stat sb;
+    long n = stat(path, &sb) == 0 ? (long)sb.st_size : 0;
+    return 2 + (int)(n >> 18);
+}
+
 /* ------------------------------------------------------------------------------------------ main */
 
 int main(void) {
@@ -1062,11 +1070,11 @@ int main(void) {
             puts(res);
         } else if (!strcmp(op, "read") && h_ntok == 4) {
             read_ctx cx = {atoi(h_tok[1]), h_tok[2], h_tok[3]};
-            run_forked(read_child, &cx, 4, 20, res, sizeof(res));
+            run_forked(read_child, &cx, cpu_budget(h_tok[3]), 20, res, sizeof(res));
             puts(res);
         } else if (!strcmp(op, "probe") && h_ntok == 3) {
             probe_ctx cx = {atoi(h_tok[1]), h_tok[2]};
-            run_forked(probe_child, &cx, 4, 20, res, sizeof(res));
+            run_forked(probe_child, &cx, cpu_budget(h_tok[2]), 20, res, sizeof(res));
             puts(res);
         } else {
             puts("ERR unknown-op");
